@@ -93,9 +93,13 @@ func cmdVerify(argv []string) {
 		tmp, pat, err := prepareGno(*repo, GnoTarget{PkgDir: *gnoDir}, e.overlay)
 		if tmp != "" && !*keep {
 			defer os.RemoveAll(tmp)
+			exitCleanup = append(exitCleanup, tmp)
 		}
 		if err != nil {
 			fmt.Fprintln(os.Stderr, "gno front end:", err)
+			if tmp != "" && !*keep {
+				os.RemoveAll(tmp)
+			}
 			os.Exit(2)
 		}
 		e.repo = tmp
@@ -195,9 +199,19 @@ func cmdVerify(argv []string) {
 	}
 	fmt.Printf("total %.1fs, problems: %d\n", time.Since(t0).Seconds(), bad)
 	if bad > 0 {
+		// os.Exit skips the deferred clean-up: remove the scratch directories here
+		if !*keep {
+			os.RemoveAll(dir)
+			for _, d := range exitCleanup {
+				os.RemoveAll(d)
+			}
+		}
 		os.Exit(1)
 	}
 }
+
+// exitCleanup: scratch directories (Gno front end) to remove when verify exits non-zero.
+var exitCleanup []string
 
 func cmdLoops(argv []string) {
 	fs := flag.NewFlagSet("loops", flag.ExitOnError)
